@@ -487,6 +487,18 @@ def downcast(v, variant):
         arms = [x for x in (v.a, v.b) if isinstance(x, St) and x.variant is not None]
         if len(arms) == 2 and v.a.variant != v.b.variant and variant in (v.a.variant, v.b.variant):
             return v.a if v.a.variant == variant else v.b
+
+        def other_variant(x):
+            # every leaf of x is a known variant different from the requested one
+            if isinstance(x, St):
+                return x.variant is not None and x.variant != variant
+            if isinstance(x, Ite):
+                return other_variant(x.a) and other_variant(x.b)
+            return False
+        if other_variant(v.b) and not other_variant(v.a):
+            return downcast(v.a, variant)
+        if other_variant(v.a) and not other_variant(v.b):
+            return downcast(v.b, variant)
         return Ite(v.c, downcast(v.a, variant), downcast(v.b, variant))
     return v
 
